@@ -125,7 +125,7 @@ def lens_in(s):
     return r
 
 
-COMP = ['absent', 'scalar', 'same', 'flat5', 'otherdict']
+COMP = ['absent', 'scalar', 'same', 'flat5', 'otherdict', 'partialdict']
 
 
 def companion(kind, s, tag):
@@ -137,6 +137,8 @@ def companion(kind, s, tag):
         return [tag + str(i) for i in range(5)]
     if kind == 'otherdict':
         return {'q': tag, 'r': [tag]}
+    if kind == 'partialdict':        # as many keys as a two-key dict of the first argument, one of them shared: NOT the same keys -> broadcast whole
+        return {'a': tag + 'A', 'zz': tag + 'Z'}
     raise ValueError(kind)
 
 
